@@ -323,30 +323,48 @@ func c01Run(c *mc.Ctx) {
 	if c.Thorough() {
 		rowsets = c02Contents(4, []int{0, 1, 2, 5})
 	}
-	for _, rows := range rowsets {
+	// rows that are longer than everything else on their page, also as the first row of a later page, with
+	// and without ordinary menu entries (a page whose menu is empty is still measured)
+	long := strings.Repeat("c", 20)
+	nBase := len(rowsets)
+	rowsets = append(rowsets, []string{"aa", "bb", long}, []string{"aa", long, "bb"}, []string{long, "aa"}, []string{"aa", long})
+	type sinkVar struct {
+		menu int
+		sep  string
+	}
+	for ri, rows := range rowsets {
 		if !c.Mine() {
 			continue
 		}
-		for _, tpl := range []int{0, 1} {
-			for b := 0; b < 4; b++ {
-				for _, mode := range modes {
-					g := c02Cfg{Rows: rows, Tpl: tpl, Menu: 1, Next: b&1 != 0, Prev: b&2 != 0, Mode: mode}
-					for sz := 1; sz <= g.total()+3; sz++ {
-						g.Size = uint32(sz)
-						sig, msg, reqs := c02Walk(g, func(pages int, vac bool) {
-							for i := 0; i < pages; i++ {
-								c.Distinct("states", "sink", fmt.Sprint(rows), fmt.Sprint(tpl, b, sz, i))
+		vars := []sinkVar{{1, ""}}
+		if ri >= nBase {
+			vars = append(vars, sinkVar{0, ""}, sinkVar{0, " -> "})
+		} else if len(rows) >= 2 {
+			// a menu separator longer than the default: every line of the menu grows
+			vars = append(vars, sinkVar{1, " -> "})
+		}
+		for _, sv := range vars {
+			for _, tpl := range []int{0, 1} {
+				for b := 0; b < 4; b++ {
+					for _, mode := range modes {
+						g := c02Cfg{Rows: rows, Tpl: tpl, Menu: sv.menu, Sep: sv.sep, Next: b&1 != 0, Prev: b&2 != 0, Mode: mode}
+						for sz := 1; sz <= g.total()+3+2*len(sv.sep)+16; sz++ {
+							g.Size = uint32(sz)
+							sig, msg, reqs := c02Walk(g, func(pages int, vac bool) {
+								for i := 0; i < pages; i++ {
+									c.Distinct("states", "sink", fmt.Sprint(rows), fmt.Sprint(tpl, b, sz, i, sv))
+								}
+								if pages >= 2 {
+									c.Distinct("nontrivial", "sink", fmt.Sprint(rows), fmt.Sprint(tpl, b, sz, sv))
+								}
+							})
+							c.Count("evaluations", 1)
+							c.Count("sink_walks", 1)
+							c.Count("transitions", int64(reqs))
+							if sig == "oversize-page" || sig == "malformed-page" || sig == "panic" {
+								gg := g
+								c.Fail(sig, msg, c01Witness{Sink: &gg})
 							}
-							if pages >= 2 {
-								c.Distinct("nontrivial", "sink", fmt.Sprint(rows), fmt.Sprint(tpl, b, sz))
-							}
-						})
-						c.Count("evaluations", 1)
-						c.Count("sink_walks", 1)
-						c.Count("transitions", int64(reqs))
-						if sig == "oversize-page" || sig == "malformed-page" || sig == "panic" {
-							gg := g
-							c.Fail(sig, msg, c01Witness{Sink: &gg})
 						}
 					}
 				}
